@@ -162,6 +162,28 @@ pub fn c03(ctx: &Ctx, subj: &dyn DynSubject, ty: &Ty, rep: &mut Report) {
                 return Err(Fail::new("borrow-misaligned", format!("borrow #{} at {:#x} is not aligned to {}", i, b.ptr, b.align)));
             }
         }
+        // other placements: whenever deserialization succeeds at a displaced base address, every borrow must
+        // still be in the buffer, at the offset the serializer wrote it, and aligned for its element type
+        for r in [1usize, 2, 4, 8, 12, 24, 40] {
+            let pr = Placed::new(&bytes, 128, r);
+            log.extra_evals += 1;
+            match guard(|| subj.eps(pr.bytes())) {
+                Ok(Ok(od)) => {
+                    let b0 = pr.addr();
+                    for (i, (b, e)) in od.borrows.iter().zip(&expected).enumerate() {
+                        if b.align > 0 && b.ptr % b.align != 0 {
+                            return Err(Fail::new("borrow-misaligned", format!("buffer displaced by {} bytes: borrow #{} at {:#x} is not aligned to {}", r, i, b.ptr, b.align)).env(json!({"residue": r})));
+                        }
+                        if b.ptr < b0 || b.ptr + b.len > b0 + bytes.len() || b.ptr - b0 != e.0 || b.len != e.1 {
+                            return Err(Fail::new("borrow-offset", format!("buffer displaced by {} bytes: borrow #{} is [{}, +{}), the serializer wrote [{}, +{})", r, i, b.ptr.wrapping_sub(b0), b.len, e.0, e.1)).env(json!({"residue": r})));
+                        }
+                    }
+                    log.classes.push("displaced-buffer-accepted".into());
+                }
+                Ok(Err(_)) => {}
+                Err(p) => return Err(Fail::new(&format!("eps-panic:{}", panic_class(&p)), format!("buffer displaced by {} bytes: deserialize_eps panicked: {}", r, p)).env(json!({"residue": r}))),
+            }
+        }
         // metamorphic allocation law
         if crate::alloc::enabled() && nonempty_borrow {
             for k in [2usize, 5, 64] {
